@@ -51,6 +51,9 @@ let () = read_lines_iter (fun line ->
     start ();
     Printf.printf "cfg rev=%d calls=%s\n" (trev ()) (calls_str ())
   | "cfg" :: _ -> print_endline "E cfg"
+  | ["backoff"; mn; mx; n] ->
+    Printf.printf "backoff=%d\n" (int_of_n (duration (n_of_int (int_of_string mn)) (n_of_int (int_of_string mx)) (n_of_int (int_of_string n))))
+  | "backoff" :: _ -> print_endline "E backoff"
   | ["fail"; k; n] -> e := add_fault !e (n_of_int (int_of_string k)) (n_of_int (int_of_string n)); print_endline "ok"
   | [("hook" | "hookf") as h; k; n; wk; k2] ->
     e := add_hook !e (n_of_int (2 * int_of_string k + (if h = "hookf" then 1 else 0))) (n_of_int (int_of_string n)) (n_of_int (wkind wk)) (n_of_int (int_of_string k2));
